@@ -111,6 +111,13 @@ def check_C01(tier, seed, rest):
     drift = ["after pass '%s' of Graph::new the graph of %s violates %s at path %s" % (x["stage"], x["def"], x["tag"], x["path"]) for x in st["viol"][:8]]
     drift += ["Compile.tla: pass '%s' of Graph::new computes a different graph than the specification's pass on %s" % (x["pass"], x["def"]) for x in st.get("passdiff", [])[:8]]
     drift += drift_lines(b, None)
+    # the shape corpus exercises what it was written for: accepted / rejected as on the reference tree
+    _dp, _metas, _ = capture(base_corpus(tier, seed), "base")
+    for m in _metas:
+        if m["id"].startswith(("rnd", "cls", "btab")):
+            continue
+        if m["accepted"] == (m["id"] in corpus.REJECTED_SHAPES):
+            drift.append("shape definition %s is %s by the derive, the corpus was written for the opposite: %s" % (m["id"], "accepted" if m["accepted"] else "rejected", (m["errors"] or [""])[0][:160]))
     import front
     ra = front.regex_agree_run(tier, seed)
     v += ra["findings"]
